@@ -389,7 +389,7 @@ class Uniform(TailCallADEVPrimitive):
     def before_tail_call(
         self,
         key: PRNGKey,
-        dual_tree: tuple[Any, ...],
+        dual_tree: DualTree,
     ):
         key, sub_key = jax.random.split(key)
         x = tfd.Uniform(low=0.0, high=1.0).sample(seed=sub_key)
